@@ -16,7 +16,76 @@ def showRel (p : Path) : String := toHex (intercalateSlash p)
 
 def showPaths (ps : List Path) : String := s!"{ps.length}" ++ String.join (ps.map fun p => " " ++ showPath p)
 
+def parseIgnore (s : String) : Bytes → Bool :=
+  let pats : List (Bool × Bytes) := if s = "-" then [] else
+    (s.splitOn ",").filterMap fun t =>
+      if t.startsWith "p" then some (true, hexb (t.drop 1).toString)
+      else if t.startsWith "s" then some (false, hexb (t.drop 1).toString)
+      else none
+  fun n => pats.any fun (pre, lit) => if pre then lit.isPrefixOf n else lit.isSuffixOf n
+
+def parseEntry (s : String) : Option (Path × Node) :=
+  match s.splitOn ":" with
+  | [p, "D"] => some (compsOf (hexb p), .dir)
+  | [p, "F", d] => some (compsOf (hexb p), .file (hexb d))
+  | [p, "L", t] => some (compsOf (hexb t) |> fun tc => (compsOf (hexb p), .link tc))
+  | _ => none
+
+def showEntry (e : Path × Node) : String :=
+  let p := toHex (intercalateSlash e.1)
+  match e.2 with
+  | .dir => p ++ ":D"
+  | .file d => p ++ ":F:" ++ toHex d
+  | .link t => p ++ ":L:" ++ toHex (intercalateSlash t)
+
+def showOptB : Option Bytes → String
+  | none => "nil"
+  | some b => toHex b
+
+def showOptN : Option Nat → String
+  | none => "nil"
+  | some n => toString n
+
+def showReply : Reply → String
+  | .none => "none"
+  | .err => "err"
+  | .ok => "ok"
+  | .panic => "panic"
+  | .opaque => "opaque"
+  | .list es => s!"list {es.length}" ++ String.join (es.map fun e =>
+      s!" {toHex e.name}:{toHex e.ty}:{toHex e.creator}:{e.size}")
+  | .info n ts cs ty c sz => s!"info {toHex n} {toHex ts} {toHex cs} {toHex ty} {showOptB c} {showOptN sz}"
+  | .download x f => s!"download {x} {f}"
+  | .upload r => s!"upload {showOptN r}"
+
+def parseReq : List String → Option Req
+  | ["list", pf] => some (.list (optb pf))
+  | ["info", pf, n] => some (.getInfo (optb pf) (hexb n))
+  | ["setinfo", pf, n, c, nn] => some (.setInfo (optb pf) (hexb n) (optb c) (optb nn))
+  | ["delete", pf, n] => some (.delete (optb pf) (hexb n))
+  | ["move", pf, n, np] => some (.move (optb pf) (hexb n) (optb np))
+  | ["newfolder", pf, n] => some (.newFolder (optb pf) (hexb n))
+  | ["alias", pf, n, np] => some (.alias (optb pf) (hexb n) (optb np))
+  | ["download", pf, n] => some (.download (optb pf) (hexb n))
+  | ["upload", pf, n, r] => some (.uploadFile (optb pf) (hexb n) (r == "1"))
+  | _ => none
+
+/-- `fsstep <ignore> <n> <entry>*n <op> <args…>` → `R <reply> T <n> <entry>*n` (root = []; see Oracle/C11.lean). -/
+def fsStep (a : List String) : String :=
+  match a with
+  | ig :: n :: rest =>
+    let k := num n
+    let ents := (rest.take k).filterMap parseEntry
+    if ents.length ≠ k then "bad-tree" else
+    match parseReq (rest.drop k) with
+    | none => "bad-op"
+    | some req =>
+      let r := handle [] (parseIgnore ig) ents req
+      s!"R {showReply r.2} T {r.1.length}" ++ String.join (r.1.map fun e => " " ++ showEntry e)
+  | _ => "bad-op"
+
 def c07Handlers : List (String × Handler) := [
+  ("fsstep", fsStep),
   -- readpath <root> <pathfield|nil> <name>  →  component-level ReadPath (decoded), rendered
   ("readpath", fun (a : List String) => match a with
     | [r, pf, n] => showRes showPath (target (compsOf (hexb r)) (optb pf) (hexb n))
@@ -53,7 +122,7 @@ def c07Handlers : List (String × Handler) := [
       | .panic => "panic"
     | _ => "bad-op"),
   -- acct create|delete <dir> <login> ; acct update <dir> <old> <new>
-  ("acct", fun (a : List String) => match a with
+  ("acctpaths", fun (a : List String) => match a with
     | ["create", d, l] => showPaths (acctCreatePaths (compsOf (hexb d)) (hexb l))
     | ["delete", d, l] => showPaths (acctDeletePaths (compsOf (hexb d)) (hexb l))
     | ["update", d, o, n] => showPaths (acctUpdatePaths (compsOf (hexb d)) (hexb o) (hexb n))
